@@ -9,6 +9,14 @@
 //                                                               the <occurrence>-th call of <class> on a path ending
 //                                                               in <path-suffix> fails with <errno> (short >= 0: that
 //                                                               write transfers <short> bytes, the retry fails)
+//                       "gate <me> <control file>"                 schedule replay for concurrent processes (C07): the
+//                                                               control file (shared mapping) holds a sequence of
+//                                                               process numbers; a process may run filesystem calls
+//                                                               only while it holds the turn.  A slot lets a process
+//                                                               run from where it is parked (arming, or a gate) through
+//                                                               one event to its next gate.  Gates: calls that can
+//                                                               change the filesystem and opens for reading; events:
+//                                                               gate calls that did change it, and opens for reading.
 // The runner arms the shim for exactly one step via cacache_shim_arm().
 #define _GNU_SOURCE
 #include <dlfcn.h>
@@ -21,12 +29,17 @@
 #include <sys/stat.h>
 #include <sys/types.h>
 #include <sys/ioctl.h>
+#include <sys/mman.h>
+#include <pthread.h>
 #include <unistd.h>
 #include <limits.h>
 #include <dirent.h>
 
 static int armed = 0;
-static int mode = 0; /* 0 none, 1 crash, 2 fault */
+static int mode = 0; /* 0 none, 1 crash, 2 fault, 3 gate */
+static int g_me = 0, g_holding = 0, g_succeeded = 0;
+static volatile int *g_ctl = NULL;   /* [0] pos [1] n [2] diverged [3] holder [4..12) done [16..] schedule */
+static pthread_mutex_t g_mu = PTHREAD_MUTEX_INITIALIZER;
 static long want_effects = -1, torn = -1;
 static char f_class[32];
 static long f_occ = 0, f_errno = 5, f_short = -1;
@@ -53,6 +66,70 @@ static void init(void) {
         mode = 2;
         f_suffix[0] = 0;
         sscanf(s, "fault %31s %ld %ld %ld %4095s", f_class, &f_occ, &f_errno, &f_short, f_suffix);
+    } else if (!strncmp(s, "gate", 4)) {
+        char ctlpath[PATH_MAX];
+        ctlpath[0] = 0;
+        if (sscanf(s, "gate %d %4095s", &g_me, ctlpath) == 2) {
+            static int (*ropen)(const char *, int, ...) = NULL;
+            if (!ropen) ropen = dlsym(RTLD_NEXT, "open");
+            static void *(*rmmap)(void *, size_t, int, int, int, off_t) = NULL;
+            if (!rmmap) rmmap = dlsym(RTLD_NEXT, "mmap");
+            int fd = ropen(ctlpath, O_RDWR);
+            if (fd >= 0) {
+                void *m = rmmap(NULL, 65536, PROT_READ | PROT_WRITE, MAP_SHARED, fd, 0);
+                if (m != (void *)-1) { g_ctl = (volatile int *)m; mode = 3; }
+            }
+        }
+    }
+}
+
+/* ---- gate mode ---------------------------------------------------------------------------------- */
+static void gate_wait(void) {
+    long waited = 0;
+    for (;;) {
+        int pos = __atomic_load_n(&g_ctl[0], __ATOMIC_SEQ_CST);
+        if (pos >= g_ctl[1]) { __atomic_or_fetch(&g_ctl[2], 1, __ATOMIC_SEQ_CST); return; }      /* schedule exhausted */
+        int who = g_ctl[16 + pos];
+        if (who == g_me) { __atomic_store_n(&g_ctl[3], g_me, __ATOMIC_SEQ_CST); return; }
+        if (who >= 0 && who < 8 && __atomic_load_n(&g_ctl[4 + who], __ATOMIC_SEQ_CST)) {         /* that process is gone */
+            __atomic_or_fetch(&g_ctl[2], 2, __ATOMIC_SEQ_CST);
+            int expect = pos;
+            __atomic_compare_exchange_n(&g_ctl[0], &expect, pos + 1, 0, __ATOMIC_SEQ_CST, __ATOMIC_SEQ_CST);
+            continue;
+        }
+        usleep(200);
+        waited += 200;
+        if (waited > 10000000) { __atomic_or_fetch(&g_ctl[2], 4, __ATOMIC_SEQ_CST); return; }
+    }
+}
+
+static void gate_release(void) {
+    __atomic_store_n(&g_ctl[3], -1, __ATOMIC_SEQ_CST);
+    __atomic_add_fetch(&g_ctl[0], 1, __ATOMIC_SEQ_CST);
+}
+
+static const char *g_what = "";
+static void gate_arrive(void) {
+    pthread_mutex_lock(&g_mu);
+    if (g_holding && g_succeeded) { gate_release(); g_holding = 0; g_succeeded = 0; }
+    if (!g_holding) { gate_wait(); g_holding = 1; g_succeeded = 0; }
+    if (getenv("CACACHE_SHIM_DEBUG")) fprintf(stderr, "gate: proc %d passes at slot %d: %s\n", g_me, g_ctl[0], g_what);
+    pthread_mutex_unlock(&g_mu);
+}
+
+static void gate_event(void) {
+    pthread_mutex_lock(&g_mu);
+    g_succeeded = 1;
+    if (getenv("CACACHE_SHIM_DEBUG")) fprintf(stderr, "gate: proc %d event in slot %d: %s\n", g_me, g_ctl[0], g_what);
+    pthread_mutex_unlock(&g_mu);
+}
+
+__attribute__((destructor)) static void gate_exit(void) {
+    if (mode == 3 && g_ctl) {
+        pthread_mutex_lock(&g_mu);
+        if (g_holding) { gate_release(); g_holding = 0; }
+        __atomic_store_n(&g_ctl[4 + g_me], 1, __ATOMIC_SEQ_CST);
+        pthread_mutex_unlock(&g_mu);
     }
 }
 
@@ -62,6 +139,13 @@ void cacache_shim_arm(int on) {
     effects = 0;
     seen = 0;
     fail_next_write_fd = -1;
+    if (on && mode == 3) gate_arrive();      /* parked at the start of the operation */
+    if (!on && mode == 3 && g_ctl) {         /* the operation is over: give the turn back for good */
+        pthread_mutex_lock(&g_mu);
+        if (g_holding) { gate_release(); g_holding = 0; g_succeeded = 0; }
+        __atomic_store_n(&g_ctl[4 + g_me], 1, __ATOMIC_SEQ_CST);
+        pthread_mutex_unlock(&g_mu);
+    }
 }
 
 static int in_root(const char *p) { return p && root[0] && !strncmp(p, root, strlen(root)); }
@@ -95,11 +179,13 @@ static void die(void) { _exit(137); }
 /* called before a mutating syscall on path p (crash mode) */
 static void pre_mutation(const char *p) {
     init();
+    if (armed && mode == 3 && in_root(p)) { g_what = p; gate_arrive(); return; }
     if (!armed || mode != 1 || !in_root(p)) return;
     if (effects == want_effects && torn < 0) die();
 }
 
 static void post_mutation(const char *p, int ok) {
+    if (armed && mode == 3 && in_root(p)) { if (ok) gate_event(); return; }
     if (!armed || mode != 1 || !in_root(p)) return;
     if (ok) effects++;
     if (getenv("CACACHE_SHIM_DEBUG")) fprintf(stderr, "shim: effect %ld ok=%d %s\n", effects, ok, p);
@@ -131,6 +217,9 @@ static int open_common(int dirfd, const char *path, int flags, mode_t m, int whi
     int e = fault_here("open", abs);
     if (e) { errno = e; return -1; }
     int creates = 0;
+    int gated_plain = 0;
+    int gate_mode = armed && mode == 3 && in_root(abs) && !(flags & O_DIRECTORY);
+    if (gate_mode) { g_what = abs; gate_arrive(); gated_plain = 1; }      /* decide "creates" while holding the turn */
     if ((flags & O_CREAT) && in_root(abs)) {
         struct stat st;
         static int (*real_lstat)(const char *, struct stat *) = NULL;
@@ -138,7 +227,7 @@ static int open_common(int dirfd, const char *path, int flags, mode_t m, int whi
         creates = real_lstat ? (real_lstat(abs, &st) != 0) : 1;
     }
     int truncs = (flags & O_TRUNC) && !creates;
-    if (creates || truncs) pre_mutation(abs);
+    if ((creates || truncs) && !gate_mode) pre_mutation(abs);
     int fd;
     if (which == 0) { static int (*r)(const char *, int, ...) = NULL; if (!r) r = dlsym(RTLD_NEXT, "open"); fd = r(path, flags, m); }
     else if (which == 1) { static int (*r)(const char *, int, ...) = NULL; if (!r) r = dlsym(RTLD_NEXT, "open64"); fd = r(path, flags, m); }
@@ -146,6 +235,7 @@ static int open_common(int dirfd, const char *path, int flags, mode_t m, int whi
     else { static int (*r)(int, const char *, int, ...) = NULL; if (!r) r = dlsym(RTLD_NEXT, "openat64"); fd = r(dirfd, path, flags, m); }
     if (fd >= 0) remember(fd, abs);
     if (creates || truncs) post_mutation(abs, fd >= 0);
+    else if (gated_plain && !(flags & (O_CREAT | O_TRUNC))) gate_event();     /* an open for reading is an event, found or not */
     return fd;
 }
 
@@ -175,6 +265,9 @@ ssize_t write(int fd, const void *buf, size_t n) {
         } else if (mode == 1 && effects == want_effects) {
             if (torn >= 0) { if (torn > 0) real(fd, buf, (size_t)torn < n ? (size_t)torn : n); die(); }
             die();
+        } else if (mode == 3) {
+            g_what = "write";
+            gate_arrive();
         }
     }
     ssize_t r = real(fd, buf, n);
